@@ -107,7 +107,9 @@ class Poly:
         if k < 0:
             inv = self.inverse()
             if inv is None:
-                raise ValueError("no inverse")
+                if self.is_zero():
+                    raise ValueError("no inverse")
+                inv = opaque("inv", [self])
             return inv ** (-k)
         r = Poly.const(1)
         for _ in range(k):
